@@ -277,7 +277,7 @@ func suiteParse(o *Out, thorough bool, seed int64) {
 	if thorough {
 		n = 1000000
 	}
-	seps := []string{" ", "", "\n", " ", "\t", "\r\n", " "}
+	seps := []string{" ", "", "\n", "\u00a0", "\t", "\r\n", "\u2028"}
 	for i := 0; i < n; i++ {
 		l := 3 + r.Intn(14)
 		var sb strings.Builder
